@@ -148,6 +148,12 @@ def run(ctx: Context, col) -> None:
         col.saw("restored", f"{cls.name}: {sorted(restored_writes)}")
         # R9.1 one instance per loop-carried attribute
         relevant = loop.relevant_attrs()
+        from .common import collaborator_attrs
+        collab = collaborator_attrs(ctx, cls)
+        hidden = sorted(a for a in L if a in collab and a not in spaths)
+        if hidden:
+            raise AnalysisError(f"{cls.name}: loop-carried state is kept inside collaborator object(s) {[f'self.{a}: {collab[a]}' for a in hidden]}; what "
+                                "solver_state saves of it goes through that object's own attributes, which this rule set does not follow")
         for a in sorted(L):
             ex = EXEMPT.get((cls.name, a))
             in_s, in_r = a in spaths, a in rpaths
